@@ -341,6 +341,10 @@ def conclude(module, ctx, P, inconclusive, t0):
 
     replay_dir = os.path.join(VERIF_ROOT, "replays")
     replay_paths = []
+    if os.path.isdir(replay_dir):  # replays of an earlier run of this property/seed are stale
+        for f in os.listdir(replay_dir):
+            if f.startswith("%s-%d-" % (pid, ctx.seed)):
+                os.remove(os.path.join(replay_dir, f))
     if violations:
         os.makedirs(replay_dir, exist_ok=True)
         for n, (key, dev) in enumerate(sorted(violations.items())):
